@@ -5,6 +5,7 @@ R15.2  memo soundness: memoised hashes can never be stale
 R15.3  memoised functions are pure and their (shared) results are never mutated
 R15.4  the default-mode context manager restores the mode on every exit
 R15.5  shared-state inventory (who may write module state)
+R15.6  cold / warm evaluation: operations on neighbours of X after the cache battery has run on X (rules/sem_history.py)
 """
 
 from __future__ import annotations
@@ -420,6 +421,11 @@ def run(prog, ctx):
              "to any component of a cached result")
     ctx.rule("R15.4", "the context manager saves the mode before overwriting it and restores it in a finally around its single yield")
     ctx.rule("R15.5", "module level mutable state and its writers equal the confirmed inventory; counters never feed results")
+    ctx.rule("R15.6", "abstract evaluation with the caches interpreted: every cache-consulting operation on a neighbour of X gives the same "
+             "result after the whole battery has run on X in the same process as in a fresh process")
+    from rules.sem_history import check_history
+
+    ctx.guarded("R15.6", prog.func("symmray.abelian_core:cached_fuse_block_info"), check_history, prog, ctx)
     check_key(prog, ctx)
     check_memo(prog, ctx)
     check_pure(prog, ctx)
